@@ -230,6 +230,10 @@ def run(ctx) -> None:
     from .c19 import r19_4_5
     ctx.guard_as("R09.9", r02_4)
     ctx.guard_as("R09.9", r19_4_5)
+    from .c01 import r01_8
+    from .c05 import r05_12
+    ctx.guard_as("R09.10", r05_12)  # a registry given by the caller (its header table) judges the header on decode as it did on encode
+    ctx.guard_as("R09.10", r01_8)  # the claims returned belong to the token that was verified
     # "plus the kid of a key picked from a key set": the key-selection rule of C14 (all routes into a set record / honour the kid)
     from .c14 import r14_2
     ctx.guard(r14_2, "R09.8")
